@@ -2,6 +2,8 @@
 
 from __future__ import annotations
 
+import asyncio
+
 from hypothesis import strategies as st
 
 from aiomysensors.exceptions import InvalidMessageError
@@ -79,7 +81,7 @@ def enumerate_cases(tier: str):
     # two commands held for a sleeping node, one event of every kind, then the wake (twice): both are still owed
     for version in ("2.0", "2.1", "2.2"):
         wake = ["rx", f"11;255;3;0;{32 if version == '2.2' else 22};7\n"]
-        for event in (["session"], ["save"], ["reload"], ["fault", 1], ["fault", 2], ["bystander", "x"], ["bystander_wake"], ["rx", "0;255;3;0;14;Gateway startup complete.\n"], ["rx", "11;255;0;0;17;2.0\n"],
+        for event in (["session"], ["save"], ["reload"], ["fault", 1], ["fault", 2], ["hang", 0], ["hang", 1], ["hang", 2], ["bystander", "x"], ["bystander_wake"], ["rx", "0;255;3;0;14;Gateway startup complete.\n"], ["rx", "11;255;0;0;17;2.0\n"],
                       ["rx", "0;255;3;0;2;2.2.0\n"], ["rx", "11;1;1;0;3;1\n"], ["rx", "2;255;3;0;22;7\n"], ["rx", "junk\n"]):
             for cmds in ([[11, 1, 1, 0, 3, "0"], [11, 2, 1, 0, 3, "1"]], [[11, 1, 1, 0, 3, "0"], [11, 1, 1, 1, 23, "1"], [11, 2, 2, 0, 3, ""]]):
                 ops = [["send", m, None] for m in cmds] + [event, wake, wake]
@@ -173,7 +175,7 @@ def _hist_strategy():
         st.sampled_from((["rx", "0;255;3;0;9;log\n"], ["rx", "junk\n"], ["rx", "0;255;3;0;2;2.2.0\n"])),
     )
     # what the application and the link do meanwhile: reconnect on the same gateway object, registry saved / reloaded, the next writes fail
-    events = st.sampled_from((["session"], ["session"], ["save"], ["reload"], ["fault", 1], ["fault", 1], ["fault", 2], ["bystander", "a"], ["bystander", "b"], ["bystander_wake"]))
+    events = st.sampled_from((["session"], ["session"], ["save"], ["reload"], ["fault", 1], ["fault", 1], ["fault", 2], ["bystander", "a"], ["bystander", "b"], ["bystander_wake"], ["hang", 0], ["hang", 1]))
     return st.fixed_dictionaries(
         {
             "kind": st.just("hist"),
@@ -250,6 +252,11 @@ def _run_hist(case: dict) -> Outcome:
                     if foreign:
                         return fail("hist:command-written-to-another-gateway", f"{where}: the other gateway's transport received {foreign!r}, which were sent through this one")
                 continue
+            if op[0] == "hang":
+                # the k-th write from now on never completes; the application's receive timeout cancels the listener in the middle of it
+                info["hang_next_rx"] = int(op[1])  # (applies to the writes made while the NEXT received line is handled)
+                info["events"] = info.get("events", 0) + 1
+                continue
             if op[0] == "fault":
                 start = len(transport.attempts)
                 transport.fail_attempts = set(range(start, start + int(op[1])))
@@ -279,7 +286,18 @@ def _run_hist(case: dict) -> Outcome:
                 continue
             line = op[1]
             parts = line.split(";")
-            status, value = await env.rx(gateway, line)
+            if info.get("hang_next_rx") is not None:
+                target = len(transport.attempts) + info.pop("hang_next_rx")
+                transport.hang_pred = lambda _line, target=target: len(transport.attempts) == target
+            if transport.hang_pred is not None:
+                try:
+                    status, value = await asyncio.wait_for(env.rx(gateway, line), 30)
+                except asyncio.TimeoutError as err:
+                    status, value = "cancelled", err
+                    transport.inbox.clear()
+                transport.hang_pred = None
+            else:
+                status, value = await env.rx(gateway, line)
             if status == "leak":
                 continue  # C03's subject
             if status != "ok":
@@ -311,7 +329,15 @@ def _run_hist(case: dict) -> Outcome:
         return None
 
     try:
-        bad = env.run(go())
+        if any(op[0] == "hang" for op in case["ops"]):
+            from vf.vloop import Deadlock, run_virtual
+
+            try:
+                bad, _loop = run_virtual(go)
+            except Deadlock:
+                bad = fail("hist:deadlock", "the event loop has nothing left to run")
+        else:
+            bad = env.run(go())
     finally:
         if info.get("tmpdir"):
             import shutil
